@@ -6,7 +6,12 @@
 //! wins, the final content is the winner's, a concurrent get answers a
 //! value the key held, reads afterwards agree (on the live instance and on a
 //! fresh one). One `get_ranges` call racing an overwrite must answer all its
-//! ranges from ONE commit. Along the commit order of a key (the backend
+//! ranges from ONE commit. A conditional get overtaken by a commit answers
+//! as in one serial order (never the new bytes under a condition that only
+//! the old token satisfies). A listing (all three variants) racing the
+//! removal of a key it has enumerated but not yet fetched succeeds and
+//! reports every location as the reference does before or after the removal.
+//! Along the commit order of a key (the backend
 //! journal) `last_modified` never decreases and date conditions built from
 //! the previous commit's timestamp answer as the reference would (logical
 //! clock, every commit observed through a fresh instance over the journal
@@ -35,15 +40,28 @@ enum Act {
     /// (the reference slices one entry under its lock)
     Ranges(u8, Vec<(u64, u64)>),
     /// list(None), drained; while it overlaps a commit it may report either
-    /// version, so only its class is part of the answer
+    /// version: its class is part of the answer, its entries are judged key
+    /// by key (see `listing_check`)
     List,
+    /// list_with_offset(None, "0") (an offset below every key), drained
+    ListOff,
+    /// list_with_delimiter(None): objects and common prefixes
+    ListDelim,
+    /// full get with `if_match` = the token of the key's setup commit
+    GetIfMatch(u8),
+    /// full get with `if_none_match` = the token of the key's setup commit
+    GetIfNoneMatch(u8),
 }
 
 impl Act {
     /// The key a read action reads (None for mutations and listings).
+    fn is_listing(&self) -> bool {
+        matches!(self, Act::List | Act::ListOff | Act::ListDelim)
+    }
+
     fn read_key(&self) -> Option<u8> {
         match self {
-            Act::Get(k) | Act::Ranges(k, _) => Some(*k),
+            Act::Get(k) | Act::Ranges(k, _) | Act::GetIfMatch(k) | Act::GetIfNoneMatch(k) => Some(*k),
             _ => None,
         }
     }
@@ -60,17 +78,27 @@ struct Scn {
 }
 
 /// What one action answered: class, body of a get, token of a put.
-#[derive(Clone, Debug, PartialEq, Eq)]
+#[derive(Clone, Debug)]
 struct ActOut {
     class: Class,
     body: Option<Vec<u8>>,
     /// bodies of a `get_ranges` call, one per requested range
     parts: Vec<Vec<u8>>,
+    /// entries of a listing: (location, size), common prefixes as ("<p>/", u64::MAX).
+    /// Not part of the equality (a listing that overlaps a commit is not a
+    /// snapshot); judged by `listing_check`.
+    listing: Option<Vec<(String, u64)>>,
+}
+
+impl PartialEq for ActOut {
+    fn eq(&self, o: &ActOut) -> bool {
+        self.class == o.class && self.body == o.body && self.parts == o.parts
+    }
 }
 
 impl ActOut {
     fn new(class: Class, body: Option<Vec<u8>>) -> ActOut {
-        ActOut { class, body, parts: Vec::new() }
+        ActOut { class, body, parts: Vec::new(), listing: None }
     }
 }
 
@@ -84,6 +112,8 @@ fn scenarios() -> Vec<Scn> {
         |name, setup: Vec<Op>, a: Op, b: Op| Scn { name, setup, tasks: vec![vec![Act::M(a)], vec![Act::M(b)]], cold: false };
     let list_vs = |name, setup: Vec<Op>, b: Op| Scn { name, setup, tasks: vec![vec![Act::List], vec![Act::M(b)]], cold: true };
     let upd = |var| put(0, var, Mode::Update(Tok::Latest));
+    let list_kind_vs = |name, kind: Act, setup: Vec<Op>, b: Op| Scn { name, setup, tasks: vec![vec![kind], vec![Act::M(b)]], cold: true };
+    let cond_get_vs = |name, get: Act, setup: Vec<Op>, b: Op, cold: bool| Scn { name, setup, tasks: vec![vec![get], vec![Act::M(b)]], cold };
     vec![
         two("update-vs-update-same-token", vec![init(0)], upd(1), upd(2)),
         two("create-vs-create", vec![], put(0, 1, Mode::Create), put(0, 2, Mode::Create)),
@@ -186,6 +216,43 @@ fn scenarios() -> Vec<Scn> {
         list_vs("list-vs-copy-onto-cold-key", vec![init(0), Op::Put { key: 2, size: 35, var: 3, mode: Mode::Overwrite }], Op::Copy { from: 2, to: 0, create: false }),
         list_vs("list-vs-multipart-cold-key", vec![init(0), put(2, 3, Mode::Overwrite)], Op::Multi { key: 0, parts: vec![15, 2, 16], var: 2, abort: false }),
         list_vs("list-vs-update-cold-key", vec![init(0)], Op::Put { key: 0, size: 35, var: 1, mode: Mode::Update(Tok::Latest) }),
+        // every list variant racing the removal (delete; rename away = copy,
+        // then delete) of a key this instance has never read: the commit point
+        // can vanish between the backend enumeration and the per-entry fetch
+        list_kind_vs("list-vs-delete-cold-key", Act::List, vec![init(0), put(2, 3, Mode::Overwrite)], Op::Delete { key: 0 }),
+        list_kind_vs("list_with_offset-vs-delete-cold-key", Act::ListOff, vec![init(0), put(2, 3, Mode::Overwrite)], Op::Delete { key: 0 }),
+        list_kind_vs("list_with_delimiter-vs-delete-cold-key", Act::ListDelim, vec![init(0), put(2, 3, Mode::Overwrite)], Op::Delete { key: 0 }),
+        list_kind_vs(
+            "list-vs-rename-away-cold-key",
+            Act::List,
+            vec![init(0), put(2, 3, Mode::Overwrite)],
+            Op::Rename { from: 0, to: 1, create: false },
+        ),
+        list_kind_vs(
+            "list_with_offset-vs-rename-away-cold-key",
+            Act::ListOff,
+            vec![init(0), put(2, 3, Mode::Overwrite)],
+            Op::Rename { from: 0, to: 1, create: true },
+        ),
+        list_kind_vs(
+            "list_with_delimiter-vs-rename-away-cold-key",
+            Act::ListDelim,
+            vec![init(0), put(2, 3, Mode::Overwrite)],
+            Op::Rename { from: 0, to: 1, create: false },
+        ),
+        // a conditional get overtaken by a commit between resolving the commit
+        // point and fetching the payload: the condition holds for whatever
+        // commit the answer comes from
+        cond_get_vs("get-if_match-vs-put", Act::GetIfMatch(0), vec![init(0)], put(0, 1, Mode::Overwrite), false),
+        cond_get_vs("get-if_match-vs-update-cold-key", Act::GetIfMatch(0), vec![init(0)], upd(1), true),
+        cond_get_vs(
+            "get-if_match-vs-copy-onto",
+            Act::GetIfMatch(0),
+            vec![init(0), put(2, 3, Mode::Overwrite)],
+            Op::Copy { from: 2, to: 0, create: false },
+            false,
+        ),
+        cond_get_vs("get-if_none_match-vs-put", Act::GetIfNoneMatch(0), vec![init(0)], put(0, 1, Mode::Overwrite), false),
     ]
     .into_iter()
     .chain(ranges_scenarios())
@@ -246,15 +313,48 @@ async fn get_act(store: &dyn ObjectStore, k: u8) -> ActOut {
 async fn ranges_act(store: &dyn ObjectStore, k: u8, rs: &[(u64, u64)]) -> ActOut {
     let ranges: Vec<std::ops::Range<u64>> = rs.iter().map(|(a, b)| *a..*b).collect();
     match store.get_ranges(&key(k), &ranges).await {
-        Ok(v) => ActOut { class: Class::Ok, body: None, parts: v.iter().map(|b| b.to_vec()).collect() },
+        Ok(v) => ActOut { class: Class::Ok, body: None, parts: v.iter().map(|b| b.to_vec()).collect(), listing: None },
         Err(e) => ActOut::new(class_of(&e), None),
     }
 }
 
-async fn list_act(store: &dyn ObjectStore) -> ActOut {
+async fn list_act(store: &dyn ObjectStore, kind: &Act) -> ActOut {
     use futures::TryStreamExt;
-    match store.list(None).try_collect::<Vec<_>>().await {
-        Ok(_) => ActOut::new(Class::Ok, None),
+    let entries = |v: &[object_store::ObjectMeta]| v.iter().map(|m| (m.location.to_string(), m.size)).collect::<Vec<_>>();
+    let r = match kind {
+        Act::ListOff => store
+            .list_with_offset(None, &object_store::path::Path::from("0"))
+            .try_collect::<Vec<_>>()
+            .await
+            .map(|v| entries(&v)),
+        Act::ListDelim => store.list_with_delimiter(None).await.map(|r| {
+            let mut l = entries(&r.objects);
+            l.extend(r.common_prefixes.iter().map(|p| (format!("{p}/"), u64::MAX)));
+            l
+        }),
+        _ => store.list(None).try_collect::<Vec<_>>().await.map(|v| entries(&v)),
+    };
+    match r {
+        Ok(mut l) => {
+            l.sort();
+            ActOut { listing: Some(l), ..ActOut::new(Class::Ok, None) }
+        }
+        Err(e) => ActOut::new(class_of(&e), None),
+    }
+}
+
+/// Full get of `k` with `if_match` / `if_none_match` = `token`.
+async fn get_if_act(store: &dyn ObjectStore, k: u8, token: Option<String>, none_match: bool) -> ActOut {
+    let opts = if none_match {
+        object_store::GetOptions { if_none_match: token, ..Default::default() }
+    } else {
+        object_store::GetOptions { if_match: token, ..Default::default() }
+    };
+    match store.get_opts(&key(k), opts).await {
+        Ok(r) => match r.bytes().await {
+            Ok(b) => ActOut::new(Class::Ok, Some(b.to_vec())),
+            Err(e) => ActOut::new(class_of(&e), None),
+        },
         Err(e) => ActOut::new(class_of(&e), None),
     }
 }
@@ -544,7 +644,17 @@ fn describe_outs(o: &[Vec<ActOut>]) -> String {
                     None if !a.parts.is_empty() => {
                         format!("{:?}:[{}]", a.class, a.parts.iter().map(|b| tag(b)).collect::<Vec<_>>().join(","))
                     }
-                    None => format!("{:?}", a.class),
+                    None => match &a.listing {
+                        Some(l) => format!(
+                            "{:?}:{{{}}}",
+                            a.class,
+                            l.iter()
+                                .map(|(n, s)| if *s == u64::MAX { n.clone() } else { format!("{n}={s}B") })
+                                .collect::<Vec<_>>()
+                                .join(",")
+                        ),
+                        None => format!("{:?}", a.class),
+                    },
                 })
                 .collect::<Vec<_>>()
                 .join("+")
@@ -621,7 +731,9 @@ fn serial_outcomes(scn: &Scn) -> Vec<Serial> {
                     Act::M(op) => ActOut::new(norm(op, apply(&store, &frozen, op).await.class), None),
                     Act::Get(k) => get_act(&store, *k).await,
                     Act::Ranges(k, rs) => ranges_act(&store, *k, rs).await,
-                    Act::List => list_act(&store).await,
+                    Act::List | Act::ListOff | Act::ListDelim => list_act(&store, act).await,
+                    Act::GetIfMatch(k) => get_if_act(&store, *k, frozen.tok_latest(*k), false).await,
+                    Act::GetIfNoneMatch(k) => get_if_act(&store, *k, frozen.tok_latest(*k), true).await,
                 };
                 outs[t][*ai] = Some(o);
             }
@@ -629,11 +741,63 @@ fn serial_outcomes(scn: &Scn) -> Vec<Serial> {
                 outs.into_iter().map(|t| t.into_iter().map(|o| o.expect("every action ran")).collect()).collect();
             (outs, content_of(&store).await.expect("reference content"))
         });
-        if !out.iter().any(|(c, f, _)| *c == r.0 && *f == r.1) {
+        let listings = |o: &Vec<Vec<ActOut>>| -> Vec<Option<Vec<(String, u64)>>> {
+            o.iter().flat_map(|t| t.iter().map(|a| a.listing.clone())).collect()
+        };
+        if !out.iter().any(|(c, f, _)| *c == r.0 && *f == r.1 && listings(c) == listings(&r.0)) {
             out.push((r.0, r.1, order));
         }
     }
     out
+}
+
+/// A listing that overlaps commits is not a snapshot (the backend is
+/// enumerated, then every commit point is read), so it need not equal the
+/// listing of one serial order as a whole. Judged key by key: what it reports
+/// for a location (absent, or present with a size; a common prefix present or
+/// not) must be what the reference listing reports for that location in SOME
+/// serial order. Locations the racing tasks do not touch read the same in
+/// every order, so they must all be there, with their size; for a listing
+/// racing one delete this is exactly "the reference listing before or after
+/// the delete".
+fn listing_check(scn: &Scn, serial: &[Serial], outs: &[Vec<ActOut>], not_a_snapshot: &mut u64) -> Option<String> {
+    for (t, acts) in scn.tasks.iter().enumerate() {
+        for (i, act) in acts.iter().enumerate() {
+            if !act.is_listing() {
+                continue;
+            }
+            let Some(mine) = &outs[t][i].listing else { continue };
+            let legal: Vec<&Vec<(String, u64)>> = serial.iter().filter_map(|(so, _, _)| so[t][i].listing.as_ref()).collect();
+            if !legal.contains(&mine) {
+                *not_a_snapshot += 1; // fits key by key (below) or not at all
+            }
+            let mut names: BTreeSet<&str> = mine.iter().map(|(n, _)| n.as_str()).collect();
+            for l in &legal {
+                names.extend(l.iter().map(|(n, _)| n.as_str()));
+            }
+            let at = |l: &Vec<(String, u64)>, n: &str| l.iter().find(|(x, _)| x == n).map(|(_, s)| *s);
+            for n in names {
+                let got = at(mine, n);
+                if !legal.iter().any(|l| at(l, n) == got) {
+                    let show = |v: Option<u64>| match v {
+                        None => "absent".to_string(),
+                        Some(u64::MAX) => "a common prefix".to_string(),
+                        Some(s) => format!("{s} bytes"),
+                    };
+                    let mut want: Vec<String> = legal.iter().map(|l| show(at(l, n))).collect();
+                    want.sort();
+                    want.dedup();
+                    return Some(format!(
+                        "task {t}: the listing reports {n} as {}, the reference listing reports it as {} (over all serial orders); listing = {:?}",
+                        show(got),
+                        want.join(" or "),
+                        mine
+                    ));
+                }
+            }
+        }
+    }
+    None
 }
 
 struct ExecOut {
@@ -643,6 +807,9 @@ struct ExecOut {
     labels: Vec<String>,
     /// commits whose timestamp was compared with their predecessor's
     commits_checked: u64,
+    /// listings that equal the reference listing of no single serial order
+    /// (judged key by key)
+    listings_not_a_snapshot: u64,
 }
 
 fn canon_labels(labels: &[vcore::ctlstore::Label]) -> Vec<String> {
@@ -690,6 +857,14 @@ fn classify(
             .map(|(t, acts)| t.iter().zip(acts).map(|(a, act)| if act.read_key().is_some() { None } else { Some(a.clone()) }).collect())
             .collect()
     };
+    // a listing that fails although it succeeds in every serial order
+    for (t, acts) in scn.tasks.iter().enumerate() {
+        for (i, act) in acts.iter().enumerate() {
+            if act.is_listing() && outs[t][i].class != Class::Ok && serial.iter().all(|(so, _, _)| so[t][i].class == Class::Ok) {
+                return "listing-failed";
+            }
+        }
+    }
     let mine = strip(outs);
     if !serial.iter().any(|(so, sf, _)| strip(so) == mine && sf == fin) {
         return "mutation-answers-or-final-content";
@@ -704,6 +879,10 @@ fn classify(
             let legal: Vec<&ActOut> = serial.iter().map(|(so, _, _)| &so[t][i]).collect();
             if legal.contains(&a) {
                 continue;
+            }
+            if matches!(act, Act::GetIfMatch(_) | Act::GetIfNoneMatch(_)) {
+                // e.g. bytes of a commit whose token the condition rules out
+                return "conditional-get-answered-as-in-no-serial-order";
             }
             if matches!(act, Act::Ranges(..)) && a.class == Class::Ok {
                 // every body taken alone is what some serial order answers for
@@ -793,7 +972,9 @@ fn run_one(wrap: Wrap, scn: &Scn, serial: &[Serial], ch: &mut Chooser) -> ExecOu
                         }
                         Act::Get(k) => (get_act(store_ref, *k).await, None),
                         Act::Ranges(k, rs) => (ranges_act(store_ref, *k, rs).await, None),
-                        Act::List => (list_act(store_ref).await, None),
+                        Act::List | Act::ListOff | Act::ListDelim => (list_act(store_ref, a).await, None),
+                        Act::GetIfMatch(k) => (get_if_act(store_ref, *k, fz.tok_latest(*k), false).await, None),
+                        Act::GetIfNoneMatch(k) => (get_if_act(store_ref, *k, fz.tok_latest(*k), true).await, None),
                     };
                     cell.borrow_mut().push(r);
                 }
@@ -823,7 +1004,7 @@ fn run_one(wrap: Wrap, scn: &Scn, serial: &[Serial], ch: &mut Chooser) -> ExecOu
         })
     };
     if end != RunEnd::AllDone {
-        return ExecOut { outcome: format!("{end:?}"), violation: viol("not-finished", format!("{end:?}")), steps, labels, commits_checked: 0 };
+        return ExecOut { outcome: format!("{end:?}"), violation: viol("not-finished", format!("{end:?}")), steps, labels, commits_checked: 0, listings_not_a_snapshot: 0 };
     }
     let raw: Vec<Vec<(ActOut, Option<String>)>> = results.iter().map(|c| c.borrow().clone()).collect();
     let outs: Vec<Vec<ActOut>> = raw.iter().map(|t| t.iter().map(|(a, _)| a.clone()).collect()).collect();
@@ -831,12 +1012,13 @@ fn run_one(wrap: Wrap, scn: &Scn, serial: &[Serial], ch: &mut Chooser) -> ExecOu
     let cold = build(wrap, ctl_store.clone());
     if let Some((what, text)) = util::block_on(post_race(store.as_ref(), cold.as_ref())) {
         let v = viol(&format!("post-race/{what}"), text);
-        return ExecOut { outcome: format!("{} -> post-race {what}", describe_outs(&outs)), violation: v, steps, labels, commits_checked: 0 };
+        return ExecOut { outcome: format!("{} -> post-race {what}", describe_outs(&outs)), violation: v, steps, labels, commits_checked: 0, listings_not_a_snapshot: 0 };
     }
     let (warm_c, cold_c) = util::block_on(async { (content_of(store.as_ref()).await, content_of(cold.as_ref()).await) });
     let outcome;
     let mut violation = None;
     let mut commits_checked = 0u64;
+    let mut listings_not_a_snapshot = 0u64;
     match (&warm_c, &cold_c) {
         (Ok(w), Ok(c)) => {
             outcome = format!("{} -> {}", describe_outs(&outs), describe(w));
@@ -908,6 +1090,11 @@ fn run_one(wrap: Wrap, scn: &Scn, serial: &[Serial], ch: &mut Chooser) -> ExecOu
                     violation = viol("reads-inconsistent", text);
                 }
             }
+            if violation.is_none()
+                && let Some(text) = listing_check(scn, serial, &outs, &mut listings_not_a_snapshot)
+            {
+                violation = viol("listing-entry-from-no-serial-order", text);
+            }
             if violation.is_none() {
                 let (bad, n) = commit_order_check(wrap, &start_content, &race_journal, store.as_ref());
                 commits_checked = n;
@@ -921,7 +1108,7 @@ fn run_one(wrap: Wrap, scn: &Scn, serial: &[Serial], ch: &mut Chooser) -> ExecOu
             violation = viol("unreadable-after", e.clone());
         }
     }
-    ExecOut { outcome, violation, steps, labels, commits_checked }
+    ExecOut { outcome, violation, steps, labels, commits_checked, listings_not_a_snapshot }
 }
 
 fn main() {
@@ -978,6 +1165,7 @@ fn main() {
             let mut viols: Vec<Violation> = Vec::new();
             let mut steps_total = 0u64;
             let mut commits_total = 0u64;
+            let mut not_snapshot_total = 0u64;
             let stats = explore(
                 bound,
                 threads,
@@ -988,6 +1176,7 @@ fn main() {
                     *outcomes.entry(out.outcome.clone()).or_insert(0) += 1;
                     steps_total += out.steps as u64;
                     commits_total += out.commits_checked;
+                    not_snapshot_total += out.listings_not_a_snapshot;
                     if let Some(v) = out.violation {
                         viols.push(v);
                     }
@@ -998,6 +1187,7 @@ fn main() {
             run.add("traces_validated_against_impl", stats.executions);
             run.add("transitions", steps_total);
             run.add("commits_compared_with_their_predecessor", commits_total);
+            run.add("listings_equal_to_no_single_serial_order_but_legal_key_by_key", not_snapshot_total);
             run.add("evaluations", stats.executions);
             run.add("states", outcomes.len() as u64);
             for o in outcomes.keys() {
@@ -1036,8 +1226,8 @@ fn main() {
     run.set("harnesses", json!(table));
     run.set("preemption_bound", json!(bound));
     run.rule(
-        "per wrapper {MetaStore, EncryptedStore(cs=16); the get_ranges scenarios also EncryptedStore(cs=7)} and scenario (two or three tasks on one key through one wrapper instance over a gated backend; a task is a mutation, a full get, a listing, or ONE get_ranges call of 3-5 ranges in different chunk spans of a three-chunk object racing an equally long overwrite by put / Update / multipart / copy-onto / rename-onto, warm and cold): every schedule of inner-store calls with at most `preemption_bound` preemptions (the get_ranges scenarios: at most 6 in the thorough tier; per-harness bounds are in `harnesses`); \
-         oracle = answers of every action (for get_ranges: all bodies of the one call, so they must come from one commit) and final content of all keys equal some serial order of the tasks' atomic steps run on InMemory (a rename is two steps, copy then delete of the source, as documented; everything else is one), after all tasks returned the live instance's list / list_with_delimiter entries, get_ranges at the length boundaries, get with if_match = latest token and head must reflect the last completed commit as a fresh instance reports it (checked before any plain get, which would heal a stale pointer; a listing that overlaps a commit may itself report either version), live and fresh instance read the same, head/list agree, a surviving put's token is the one it returned; \
+        "per wrapper {MetaStore, EncryptedStore(cs=16); the get_ranges scenarios also EncryptedStore(cs=7)} and scenario (two or three tasks on one key through one wrapper instance over a gated backend; a task is a mutation, a full get, a full get with if_match / if_none_match = the token of the key's setup commit (racing put / Update / copy-onto: the condition must hold for the commit the answer comes from), a listing (list / list_with_offset / list_with_delimiter; each racing delete and rename-away of a key the instance never read, list also racing put / copy-onto / multipart / Update), or ONE get_ranges call of 3-5 ranges in different chunk spans of a three-chunk object racing an equally long overwrite by put / Update / multipart / copy-onto / rename-onto, warm and cold): every schedule of inner-store calls with at most `preemption_bound` preemptions (the get_ranges scenarios: at most 6 in the thorough tier; per-harness bounds are in `harnesses`); \
+         oracle = answers of every action (for get_ranges: all bodies of the one call, so they must come from one commit) and final content of all keys equal some serial order of the tasks' atomic steps run on InMemory (a rename is two steps, copy then delete of the source, as documented; everything else is one); a listing must answer with the class of that serial order, and what it reports for each location (absent / size / common prefix) must be what the reference listing reports for that location in some serial order - untouched locations all present with their size; for a listing racing one delete that is the reference listing before or after the delete; a listing overlapping a two-step rename need not be a snapshot, counted in listings_equal_to_no_single_serial_order_but_legal_key_by_key; after all tasks returned the live instance's list / list_with_delimiter entries, get_ranges at the length boundaries, get with if_match = latest token and head must reflect the last completed commit as a fresh instance reports it (checked before any plain get, which would heal a stale pointer; a listing that overlaps a commit may itself report either version), live and fresh instance read the same, head/list agree, a surviving put's token is the one it returned; \
          commit order (under a logical clock that advances on every reading): every commit of a key = every meta/<key> put in the backend journal, observed through a fresh instance over the journal prefix: last_modified never decreases from one commit of a key to the next, and get(if_modified_since = T of the previous commit) answers the new object, get(if_unmodified_since = that T) is refused (the other answer only for the very same instant), on the fresh instance at every commit and on the live instance at the end; \
          distinct = distinct observed (answers, final content) outcomes per harness; states = same; transitions = task polls",
     );
